@@ -46,8 +46,13 @@ Proof.
   - injection H as <-. now left.
   - injection H as <-. now left.
   - injection H as <-. now left.
-  - destruct (find_task (saved s) (v_id v)); [|discriminate]. kill_if H. injection H as <-. now left.
-  - destruct (saved s); [injection H as <-; now left|discriminate].
+  - destruct (crash_mode s).
+    + destruct (find_inst (c_insts c) (v_id v)); [|discriminate]. kill_if H. injection H as <-. now left.
+    + destruct (find_task (saved s) (v_id v)); [|discriminate]. kill_if H. injection H as <-. now left.
+  - destruct (crash_mode s); [injection H as <-; now left|].
+    destruct (saved s); [injection H as <-; now left|discriminate].
+  - injection H as <-. now left.
+  - kill_if H. injection H as <-. now left.
   - injection H as <-. now left.
   - injection H as <-. now left.
   - injection H as <-. now left.
@@ -493,12 +498,16 @@ Theorem restart_keeps_persistent_state c s s' :
   hist s' = hist s.
 Proof. cbn [step]. intros [= <-]. cbn. repeat split. Qed.
 
+Lemma restart_clears_crash_mode c s s' : step c s ERestart = Ok s' -> crash_mode s' = false.
+Proof. cbn [step]. intros [= <-]. reflexivity. Qed.
+
 Theorem restore_matches_expected c s v s' :
+  crash_mode s = false ->
   step c s (ERestore v) = Ok s' ->
   exists p, find_task (saved s) (v_id v) = Some p /\ view_matches p v = true /\
-            pool s' = pool s ++ [p] /\ saved s' = remove_task (saved s) (v_id v).
+            pool s' = pool s ++ [p] /\ saved s' = remove_task (saved s) (v_id v) /\ crash_mode s' = false.
 Proof.
-  cbn [step]. destruct (find_task (saved s) (v_id v)) as [p|]; [|discriminate].
+  intros Hc. cbn [step]. rewrite Hc. destruct (find_task (saved s) (v_id v)) as [p|]; [|discriminate].
   destruct (negb (view_matches p v)) eqn:E; [discriminate|].
   destruct (existsb _ (pool s)); [discriminate|]. intros [= <-].
   exists p. apply negb_false_iff in E. repeat split; auto.
@@ -514,16 +523,17 @@ Proof.
 Qed.
 
 Lemma restores_account c vs : forall s s',
+  crash_mode s = false ->
   exec c s (map ERestore vs) = Some s' ->
   (forall p, In p (pool s') -> In p (pool s) \/ In p (saved s)) /\
   (forall p, In p (saved s) -> In p (saved s') \/ In p (pool s')) /\
-  (forall p, In p (pool s) -> In p (pool s')).
+  (forall p, In p (pool s) -> In p (pool s')) /\ crash_mode s' = false.
 Proof.
-  induction vs as [|v r IH]; intros s s'; cbn [map exec].
+  induction vs as [|v r IH]; intros s s' Hc; cbn [map exec].
   - intros [= <-]. auto.
   - destruct (step c s (ERestore v)) as [s1|] eqn:E; [|discriminate]. intros H.
-    destruct (restore_matches_expected _ _ _ _ E) as [x [Hf [_ [Hp Hs]]]].
-    destruct (IH _ _ H) as [A [B C]]. rewrite Hp, Hs in *. repeat split.
+    destruct (restore_matches_expected _ _ _ _ Hc E) as [x [Hf [_ [Hp [Hs Hc1]]]]].
+    destruct (IH _ _ Hc1 H) as [A [B [C D]]]. rewrite Hp, Hs in *. repeat split; [| | |exact D].
     + intros p Hp'. destruct (A p Hp') as [Hq|Hq].
       * apply in_app_or in Hq. destruct Hq as [Hq|[<-|[]]]; [now left|right].
         apply find_task_In in Hf. tauto.
@@ -543,12 +553,12 @@ Proof.
   cbn [exec]. destruct (step c s ERestart) as [s0|] eqn:E0; [|discriminate]. intros H.
   apply exec_app in H. destruct H as [s1 [H1 H2]].
   cbn [exec] in H2. destruct (step c s1 ERestartDone) as [s2|] eqn:E2; [|discriminate]. injection H2 as <-.
-  cbn [step] in E2. destruct (saved s1) eqn:Es; [|discriminate]. injection E2 as <-.
   destruct (restart_keeps_persistent_state _ _ _ E0) as [Hs [Hp _]].
-  destruct (restores_account _ _ _ _ H1) as [A [B _]]. rewrite Hs, Hp in *.
+  destruct (restores_account _ _ _ _ (restart_clears_crash_mode _ _ _ E0) H1) as [A [B [_ D]]]. rewrite Hs, Hp in *.
+  cbn [step] in E2. rewrite D in E2. destruct (saved s1) eqn:Es; [|discriminate]. injection E2 as <-.
   intros q. split.
   - intros Hq. destruct (A q Hq) as [[]|Hq']. exact Hq'.
-  - intros Hq. destruct (B q Hq) as [Hq'|Hq']; [rewrite Es in Hq'; destruct Hq'|exact Hq'].
+  - intros Hq. destruct (B q Hq) as [Hq'|Hq']; [destruct Hq'|exact Hq'].
 Qed.
 
 (* ------------------------------------------------------------------ *)
@@ -616,4 +626,32 @@ Proof.
   destruct (negb _); [discriminate|]. destruct (existsb _ _); [discriminate|].
   destruct (negb (subset_keys _ _)); [discriminate|]. destruct (negb (Bool.eqb _ _)); [discriminate|].
   destruct (Z.ltb (fst t) (c_start c)) eqn:E; [discriminate|]. intros _. now apply Z.ltb_ge in E.
+Qed.
+
+(* ------------------------------------------------------------------ *)
+(* C20: crash + restart                                                 *)
+(* ------------------------------------------------------------------ *)
+(* whatever the database gives back after a crash is accepted only if it is consistent *)
+Theorem crash_restore_is_consistent c s v s' :
+  crash_mode s = true -> step c s (ERestore v) = Ok s' ->
+  exists i, find_inst (c_insts c) (v_id v) = Some i /\
+    c_icp c <= fst (v_id v) <= c_fcp c /\
+    (forall k, In k (v_sat v) -> In k (done s)) /\
+    (forall o, In o (v_outs v) -> In (v_id v, o) (done s)) /\
+    ~ In (v_id v) (map p_id (pool s)) /\
+    (forall x, In x (subs s') -> In x (subs s) /\ (fst x = v_id v -> (snd x <= v_sn v)%nat)).
+Proof.
+  intros Hc. cbn [step]. rewrite Hc.
+  destruct (find_inst (c_insts c) (v_id v)) as [i|]; [|discriminate].
+  destruct (negb (Z.leb (c_icp c) (fst (v_id v)) && Z.leb (fst (v_id v)) (c_fcp c))) eqn:Eb; [discriminate|].
+  destruct (existsb (fun q => tid_eqb (p_id q) (v_id v)) (pool s)) eqn:Ep; [discriminate|].
+  destruct (negb (forallb (fun k => mem key_eqb k (done s)) (v_sat v))) eqn:Es; [discriminate|].
+  destruct (negb (forallb (fun o => mem key_eqb (v_id v, o) (done s)) (v_outs v))) eqn:Eo; [discriminate|].
+  match goal with |- (if ?b then _ else _) = _ -> _ => destruct b; [discriminate|] end.
+  intros [= <-]. exists i. apply negb_false_iff in Eb, Es, Eo. apply andb_true_iff in Eb. destruct Eb as [E1 E2].
+  apply Z.leb_le in E1, E2. rewrite forallb_forall in Es, Eo.
+  split; [reflexivity|]. split; [lia|]. split; [intros k Hk; apply mem_key_In; auto|].
+  split; [intros o Ho; apply mem_key_In; auto|]. split; [now apply existsb_id_false|].
+  cbn. intros x Hx. apply filter_In in Hx. destruct Hx as [Hx Hf]. split; [exact Hx|].
+  intros Heq. rewrite Heq, tid_eqb_refl in Hf. cbn in Hf. now apply Nat.leb_le in Hf.
 Qed.
